@@ -27,6 +27,8 @@ def main():
     area, k = sys.argv[1], sys.argv[2]
     src = "/tmp/harm_out/%s/r%s" % (area, k)
     dst = os.path.join(VERIF, "seeded", "harmless", "%s-%s" % (area, k))
+    if "--reconfirm" in sys.argv:
+        src = dst
     assert sh("git -C %s status --porcelain" % REPO).stdout.strip() == "", "repo working tree not clean"
     ids = [c["property_id"] for c in json.load(open(os.path.join(VERIF, "MANIFEST.json")))["checks"]]
     res = {"area": area, "rewrite": int(k)}
@@ -46,7 +48,7 @@ def main():
     res["alarms"] = sorted(p for p, v in res.get("checks", {}).items() if v["exit"] != 0)
     os.makedirs(dst, exist_ok=True)
     for f in ("patch.diff", "meta.json", "probe.py"):
-        if os.path.exists(os.path.join(src, f)):
+        if src != dst and os.path.exists(os.path.join(src, f)):
             shutil.copy(os.path.join(src, f), os.path.join(dst, f))
     json.dump(res, open(os.path.join(dst, "result.json"), "w"), indent=1)
     print(area, k, "applies" if res.get("applies") else "DOES-NOT-APPLY", "alarms:", res["alarms"], {p: res["checks"][p]["lines"] for p in res["alarms"]} if res.get("checks") else "")
